@@ -188,6 +188,18 @@ func (f *frame) intrinsic(full string, callee *ssa.Function, c *ssa.CallCommon, 
 			return []Term{mkIte(r, i64(1), i64(0))}, true
 		}
 		return []Term{r}, true
+	case full == "bytes.Clone", full == "slices.Clone[[]byte]":
+		vc.trust("bytes.Clone (fresh copy; nil for nil)")
+		b := args[0]
+		obj := f.alloc(i64(1))
+		vc.assume(ule(i64(4096), obj))
+		hn, hs := f.byteHeap()
+		h := f.st.get(hn, hs)
+		f.st.set(hn, vc.blockCopy(hn, h, mkSelect(h, slObj(b), arraySort(SBV64, SBV8)), obj, i64(0), slOff(b), slLen(b)))
+		ncap := vc.declareFresh(f.prefix+"clone$cap", SBV64)
+		vc.assume(mkAnd(sle(slLen(b), ncap), sle(ncap, bvLit(64, 1<<40))))
+		res := mkIte(mkEq(slObj(b), i64(0)), nilSlice, mkSlice(obj, i64(0), slLen(b), ncap))
+		return []Term{res}, true
 	case full == "errors.New", full == "fmt.Errorf":
 		vc.trust(full)
 		a := f.alloc(i64(1))
